@@ -121,6 +121,56 @@ static void digest(FILE *o, const vnaproperty_t *n)
     }
 }
 
+/*
+ * White-box check of every map in the tree (vnaproperty_internal.h): each element of the order
+ * list is reachable through the chain of bucket hashval % hash_size, chains are sorted by
+ * (hashval, key), the order list is consistent in both directions and has vpm_count elements.
+ * Returns the number of broken invariants.
+ */
+static int check_tables(const vnaproperty_t *n)
+{
+    int bad = 0;
+
+    if (n == NULL)
+	return 0;
+    if (n->vpr_type == VNAPROPERTY_LIST) {
+	const vnaproperty_list_t *l = (const vnaproperty_list_t *)n;
+	if (l->vpl_length > l->vpl_allocation) ++bad;
+	for (size_t i = 0; i < l->vpl_length; ++i)
+	    bad += check_tables(l->vpl_vector[i]);
+	for (size_t i = l->vpl_length; i < l->vpl_allocation; ++i)
+	    if (l->vpl_vector[i] != NULL) ++bad;		/* cells beyond the length are NULL */
+    } else if (n->vpr_type == VNAPROPERTY_MAP) {
+	const vnaproperty_map_t *m = (const vnaproperty_map_t *)n;
+	size_t in_order = 0, in_chains = 0;
+	const vnaproperty_map_element_t *e, *prev = NULL;
+
+	for (e = m->vpm_order_head; e != NULL; prev = e, e = e->vme_order_next) {
+	    const vnaproperty_map_element_t *c;
+	    ++in_order;
+	    if (e->vme_order_prev != prev) ++bad;
+	    if (e->vme_magic != VNAPROPERTY_MAP_PAIR_ELEMENT_MAGIC) ++bad;
+	    if (m->vpm_hash_size == 0) { ++bad; continue; }
+	    for (c = m->vpm_hash_table[e->vme_hashval % m->vpm_hash_size]; c != NULL && c != e; c = c->vme_hash_next)
+		;
+	    if (c != e) ++bad;					/* lost from its chain */
+	    bad += check_tables(e->vme_pair.vmpr_value);
+	}
+	if (m->vpm_order_tail != prev) ++bad;
+	for (size_t b = 0; b < m->vpm_hash_size; ++b) {
+	    const vnaproperty_map_element_t *c, *p = NULL;
+	    for (c = m->vpm_hash_table[b]; c != NULL; p = c, c = c->vme_hash_next) {
+		++in_chains;
+		if (c->vme_hashval % m->vpm_hash_size != b) ++bad;
+		if (p != NULL && !(p->vme_hashval < c->vme_hashval || (p->vme_hashval == c->vme_hashval &&
+				strcmp(p->vme_pair.vmpr_key, c->vme_pair.vmpr_key) < 0))) ++bad;
+	    }
+	}
+	if (in_order != m->vpm_count || in_chains != m->vpm_count) ++bad;
+    }
+    return bad;
+}
+
 static const char *errname(int e)
 {
     static char b[32];
@@ -389,8 +439,10 @@ int main(int argc, char **argv)
 	fclose(po);
 	printf("%ld %s %s ", ret, errname(e), paylen ? pay : "-");
 	digest(stdout, ROOT());
+	if (check_tables(ROOT()) != 0) printf("!HT%d", check_tables(ROOT()));
 	printf(" ");
 	digest(stdout, aux);
+	if (check_tables(aux) != 0) printf("!HT%d", check_tables(aux));
 	if (ytext != NULL) { printf(" "); hexn(stdout, ytext, ylen); if (ylen == 0) printf("-"); }
 	if (error_count && getenv("PROP_ERRCOUNT")) printf(" errcb=%d", error_count);
 	printf("\n");
